@@ -33,7 +33,14 @@ type validator interface{ ValidateBasic() error }
 func mkMsg(e *env, h int) (signer string, target uint64, exec func(ctx sdk.Context) error) {
 	var m validator
 	var call func(c context.Context) error
-	o := func() int { return 1 + verif_Choice("msg-order", e.NO+1) }
+	// the group a message names (the *_g2 universe has two)
+	g := 1
+	needGroup := h == hCloseGroup || h == hPauseGroup || h == hStartGroup || h == hCreateBid || h == hCloseBid || h == hCreateLease || h == hWithdrawLease || h == hCloseLease
+	if nGroups > 1 && needGroup {
+		g = 1 + verif_Choice("msg-group", nGroups)
+		e.msgGroup = g
+	}
+	o := func() int { return 1 + verif_Choice("msg-order", e.slots(g, e.NO)+1) }
 	p := func() int { return 1 + verif_Choice("msg-provider", e.NP) }
 	signer = addr(0)
 	target = 1
@@ -43,7 +50,12 @@ func mkMsg(e *env, h int) (signer string, target uint64, exec func(ctx sdk.Conte
 			target = 3
 		}
 		price := amount("msg-price")
-		x := &dtypes.MsgCreateDeployment{ID: did(target), Groups: []dtypes.GroupSpec{spec(price)}, Version: make([]byte, 32), Deposit: coin(amount("msg-deposit"))}
+		groups := []dtypes.GroupSpec{spec(price)}
+		if nGroups > 1 && verif_Choice("msg-groups", 2) == 1 {
+			groups = append(groups, specN(amount("msg-price-2"), 2))
+		}
+		e.ngroups[target] = len(groups)
+		x := &dtypes.MsgCreateDeployment{ID: did(target), Groups: groups, Version: make([]byte, 32), Deposit: coin(amount("msg-deposit"))}
 		m, call = x, func(c context.Context) error { _, err := e.ds.CreateDeployment(c, x); return err }
 	case hDepositDeployment:
 		x := &dtypes.MsgDepositDeployment{ID: did(1), Amount: coin(amount("msg-amount"))}
@@ -52,40 +64,44 @@ func mkMsg(e *env, h int) (signer string, target uint64, exec func(ctx sdk.Conte
 		v := make([]byte, 32)
 		v[0] = byte(verif_Choice("msg-version", 2))
 		pre := e.snapshot()
-		x := &dtypes.MsgUpdateDeployment{ID: did(1), Groups: []dtypes.GroupSpec{pre.grp[1].GroupSpec}, Version: v}
+		var specs []dtypes.GroupSpec
+		for gi := 1; gi <= nGroups; gi++ {
+			specs = append(specs, pre.grp[gk{1, gi}].GroupSpec)
+		}
+		x := &dtypes.MsgUpdateDeployment{ID: did(1), Groups: specs, Version: v}
 		m, call = x, func(c context.Context) error { _, err := e.ds.UpdateDeployment(c, x); return err }
 	case hCloseDeployment:
 		x := &dtypes.MsgCloseDeployment{ID: did(1)}
 		m, call = x, func(c context.Context) error { _, err := e.ds.CloseDeployment(c, x); return err }
 	case hCloseGroup:
-		x := &dtypes.MsgCloseGroup{ID: gid(1)}
+		x := &dtypes.MsgCloseGroup{ID: gidG(1, g)}
 		m, call = x, func(c context.Context) error { _, err := e.ds.CloseGroup(c, x); return err }
 	case hPauseGroup:
-		x := &dtypes.MsgPauseGroup{ID: gid(1)}
+		x := &dtypes.MsgPauseGroup{ID: gidG(1, g)}
 		m, call = x, func(c context.Context) error { _, err := e.ds.PauseGroup(c, x); return err }
 	case hStartGroup:
-		x := &dtypes.MsgStartGroup{ID: gid(1)}
+		x := &dtypes.MsgStartGroup{ID: gidG(1, g)}
 		m, call = x, func(c context.Context) error { _, err := e.ds.StartGroup(c, x); return err }
 	case hCreateBid:
 		pi := p()
 		signer = addr(pi)
-		x := &mtypes.MsgCreateBid{Order: oid(1, o()), Provider: addr(pi), Price: coin(amount("msg-price")), Deposit: coin(amount("msg-deposit"))}
+		x := &mtypes.MsgCreateBid{Order: oidG(1, g, o()), Provider: addr(pi), Price: coin(amount("msg-price")), Deposit: coin(amount("msg-deposit"))}
 		m, call = x, func(c context.Context) error { _, err := e.ms.CreateBid(c, x); return err }
 	case hCloseBid:
 		pi := p()
 		signer = addr(pi)
-		x := &mtypes.MsgCloseBid{BidID: bidid(1, o(), pi)}
+		x := &mtypes.MsgCloseBid{BidID: bididG(1, g, o(), pi)}
 		m, call = x, func(c context.Context) error { _, err := e.ms.CloseBid(c, x); return err }
 	case hCreateLease:
-		x := &mtypes.MsgCreateLease{BidID: bidid(1, o(), p())}
+		x := &mtypes.MsgCreateLease{BidID: bididG(1, g, o(), p())}
 		m, call = x, func(c context.Context) error { _, err := e.ms.CreateLease(c, x); return err }
 	case hWithdrawLease:
 		pi := p()
 		signer = addr(pi)
-		x := &mtypes.MsgWithdrawLease{LeaseID: lid(1, o(), pi)}
+		x := &mtypes.MsgWithdrawLease{LeaseID: lidG(1, g, o(), pi)}
 		m, call = x, func(c context.Context) error { _, err := e.ms.WithdrawLease(c, x); return err }
 	case hCloseLease:
-		x := &mtypes.MsgCloseLease{LeaseID: lid(1, o(), p())}
+		x := &mtypes.MsgCloseLease{LeaseID: lidG(1, g, o(), p())}
 		m, call = x, func(c context.Context) error { _, err := e.ms.CloseLease(c, x); return err }
 	}
 	exec = func(ctx sdk.Context) (err error) {
@@ -161,6 +177,9 @@ func step(h, no, np int) {
 		}
 	}
 	checkFrame(pre, post, 12)
+	if e.msgGroup != 0 {
+		checkOtherGroup(pre, post, 3-e.msgGroup)
+	}
 	checkClosedStay(pre, post)
 	checkEvents(pre, post, e.ctx.EventManager().Events(), h)
 }
@@ -168,7 +187,7 @@ func step(h, no, np int) {
 // checkFrame: every record of deployment dseq is unchanged
 func checkFrame(pre, post state, dseq uint64) {
 	d0, d1 := pre.dep[dseq], post.dep[dseq]
-	g0, g1 := pre.grp[dseq], post.grp[dseq]
+	g0, g1 := pre.grp[gk{dseq, 1}], post.grp[gk{dseq, 1}]
 	verif_Assert(verif_And(d0.State == d1.State, g0.State == g1.State), "C06 records of another deployment are untouched (deployment, group)")
 	for id, o0 := range pre.ord {
 		if id.DSeq == dseq {
@@ -203,11 +222,49 @@ func checkFrame(pre, post state, dseq uint64) {
 		"C03 no record is ever removed")
 }
 
+// checkOtherGroup: a message that names a group (or an order, bid or lease of it) leaves the records
+// of the deployment's other group alone - unless the deployment's escrow account was closed or
+// overdrawn by this very transaction, which legitimately ends everything beneath the deployment
+func checkOtherGroup(pre, post state, other int) {
+	a0, a1 := pre.acct[dtypes.EscrowAccountForDeployment(did(1))], post.acct[dtypes.EscrowAccountForDeployment(did(1))]
+	if a0.State != a1.State {
+		return
+	}
+	const label = "C06 a message touches only the records of the group it names"
+	verif_Assert(pre.grp[gk{1, other}].State == post.grp[gk{1, other}].State, label)
+	for id, o0 := range pre.ord {
+		if id.DSeq == 1 && int(id.GSeq) == other {
+			verif_Assert(o0.State == post.ord[id].State, label)
+		}
+	}
+	for id, b0 := range pre.bid {
+		if id.DSeq == 1 && int(id.GSeq) == other {
+			verif_Assert(b0.State == post.bid[id].State, label)
+			k := mtypes.EscrowAccountForBid(id)
+			verif_Assert(verif_And(pre.acct[k].State == post.acct[k].State, pre.acct[k].Balance.Amount.Equal(post.acct[k].Balance.Amount)), label)
+		}
+	}
+	for id, l0 := range pre.lease {
+		if id.DSeq == 1 && int(id.GSeq) == other {
+			verif_Assert(l0.State == post.lease[id].State, label)
+			verif_Assert(pre.pay[leasePayKey(id)].State == post.pay[leasePayKey(id)].State, label)
+		}
+	}
+	for id := range post.ord {
+		if id.DSeq == 1 && int(id.GSeq) == other {
+			_, existed := pre.ord[id]
+			verif_Assert(existed, label)
+		}
+	}
+}
+
 func isBidOf(id etypes.AccountID, dseq uint64) bool {
-	for o := 1; o <= 3; o++ {
-		for p := 1; p <= 2; p++ {
-			if id == mtypes.EscrowAccountForBid(bidid(dseq, o, p)) {
-				return true
+	for g := 1; g <= 2; g++ {
+		for o := 1; o <= 3; o++ {
+			for p := 1; p <= 2; p++ {
+				if id == mtypes.EscrowAccountForBid(bididG(dseq, g, o, p)) {
+					return true
+				}
 			}
 		}
 	}
@@ -266,6 +323,22 @@ func Harness_CHAIN_CreateLease_21()       { step(hCreateLease, 2, 1) }
 func Harness_CHAIN_WithdrawLease_21()     { step(hWithdrawLease, 2, 1) }
 func Harness_CHAIN_CloseLease_21()        { step(hCloseLease, 2, 1) }
 
+// the focus deployment has two groups (one order slot and one provider each): a message naming one
+// group, or closing the deployment, must treat the other group correctly
+func stepG2(h int) { nGroups = 2; step(h, 1, 1) }
+
+func Harness_CHAIN_CreateDeployment_g2()  { stepG2(hCreateDeployment) }
+func Harness_CHAIN_DepositDeployment_g2() { stepG2(hDepositDeployment) }
+func Harness_CHAIN_UpdateDeployment_g2()  { stepG2(hUpdateDeployment) }
+func Harness_CHAIN_CloseDeployment_g2()   { stepG2(hCloseDeployment) }
+func Harness_CHAIN_CloseGroup_g2()        { stepG2(hCloseGroup) }
+func Harness_CHAIN_PauseGroup_g2()        { stepG2(hPauseGroup) }
+func Harness_CHAIN_StartGroup_g2()        { stepG2(hStartGroup) }
+func Harness_CHAIN_CreateBid_g2()         { stepG2(hCreateBid) }
+func Harness_CHAIN_CloseBid_g2()          { stepG2(hCloseBid) }
+func Harness_CHAIN_CreateLease_g2()       { stepG2(hCreateLease) }
+func Harness_CHAIN_WithdrawLease_g2()     { stepG2(hWithdrawLease) }
+func Harness_CHAIN_CloseLease_g2()        { stepG2(hCloseLease) }
 
 // ---------- C07: determinism by 2-run self-composition ----------
 // The same message is executed twice from the same state on two forks of the context, with
